@@ -1,7 +1,7 @@
 use lazy_static::lazy_static;
 use regex::Regex;
 
-use crate::delta::{State, StateMachine};
+use crate::delta::{DiffType, State, StateMachine};
 
 impl StateMachine<'_> {
     #[inline]
@@ -43,6 +43,8 @@ impl StateMachine<'_> {
                         .plus_style
                         .paint(commit.chars().take(12).collect::<String>()),
                 )?;
+                // Both commits have been shown; nothing is pending any more.
+                self.state = State::HunkPlus(DiffType::Unified, None);
             }
             Ok(true)
         } else {
@@ -50,6 +52,29 @@ impl StateMachine<'_> {
             // starts like one): leave it to the other handlers instead of dropping it.
             Ok(false)
         }
+    }
+
+    /// The commit of a `-Subproject commit` line is held back until the `+Subproject commit`
+    /// line arrives. If something else follows (the submodule was removed), or the input
+    /// ends, emit it now instead of dropping it.
+    pub fn handle_pending_submodule_short_commit(
+        &mut self,
+        at_end_of_input: bool,
+    ) -> std::io::Result<()> {
+        if let State::SubmoduleShort(minus_commit) = &self.state {
+            if at_end_of_input || !self.line.starts_with("+Subproject commit ") {
+                self.painter.emit()?;
+                writeln!(
+                    self.painter.writer,
+                    "{}",
+                    self.config
+                        .minus_style
+                        .paint(minus_commit.chars().take(12).collect::<String>()),
+                )?;
+                self.state = State::HunkMinus(DiffType::Unified, None);
+            }
+        }
+        Ok(())
     }
 }
 
